@@ -23,6 +23,10 @@ use std::collections::BTreeMap;
 fn install_panic_hook() {
     std::panic::set_hook(Box::new(|info| {
         let loc = info.location().map(|l| format!("{}:{}", l.file(), l.line())).unwrap_or_else(|| "?".into());
+        if !simtypes::in_facade() {
+            // a panic in harness code: never silent
+            eprintln!("harness panic at {}: {}", loc, info);
+        }
         simtypes::note_panic(loc);
     }));
 }
